@@ -35,8 +35,16 @@ def _text(key, seed, length):
     para = (tag + "|NECX|26|32|15,15|15,40|" * 60)[:paralen]
     if paralen > len(para):
         para = (para * (paralen // max(1, len(para)) + 1))[:paralen]
-    hexcode = f"{_h(seed, key, 'x'):016X}" * 3
-    return para, hexcode[:hexlen]
+    hexcode = (f"{_h(seed, key, 'x'):016X}" * 3)[:hexlen]
+    # the stored text is opaque to the library: some sets spell their codes in lower case or with a 0x / 0X prefix
+    style = _h(seed, key, "style") % 10
+    if style == 0 and hexlen >= 3:
+        hexcode = "0x" + hexcode[2:]
+    elif style == 1 and hexlen >= 3:
+        hexcode = "0X" + hexcode[2:].lower()
+    elif style == 2:
+        hexcode = hexcode.lower()
+    return para, hexcode
 
 
 def candidate_keys(spec):
